@@ -318,7 +318,31 @@ def is_2d(x):
 # ---------------------------------------------------------------------------------------------------------------
 # stream: scalarize  (Mo*Function.normalize + scalarize against scal_hist; dominance / utopia oracles)
 # ---------------------------------------------------------------------------------------------------------------
-def run_scalariser(kind, w, par, rows):
+def segments(n, cuts):
+    """contiguous batches [0:c1], [c1:c2], ... [ck:n] of a history of length n (cuts: increasing indices in 1..n-1)."""
+    cs = [0] + [c for c in sorted(set(cuts or [])) if 0 < c < n] + [n]
+    return [(a, b) for a, b in zip(cs, cs[1:])]
+
+
+def gen_cuts(rng, n, tier=None):
+    """0-3 cut points: the history is told in 1-4 batches."""
+    if n < 2:
+        return []
+    k = rng.choice([0, 1, 1, 2, 3])
+    return sorted(rng.sample(range(1, n), min(k, n - 1)))
+
+
+def improve_later(rng, rows, p=0.6):
+    """with probability p put the rows in an order where later rows tend to be better (minimisation form: smaller sums last), so that
+    later batches beat the per-objective best of the earlier ones."""
+    if rng.random() < p:
+        good = sorted([r for r in rows if r is not None], key=lambda r: -sum(r))
+        it = iter(good)
+        return [None if r is None else next(it) for r in rows]
+    return rows
+
+
+def run_scalariser(kind, w, par, rows, prefix=0):
     import numpy as np
     from deephyper.skopt.moo import moo_functions
 
@@ -327,6 +351,11 @@ def run_scalariser(kind, w, par, rows):
         kw[PAR_KW[kind]] = par
     f = moo_functions[kind](n_objectives=len(rows[0]), weight=list(w), random_state=0, **kw)
     Y = np.array(rows, dtype=float)
+    if prefix:   # the same function object first sees a prefix of the history (an earlier surrogate fit), then the whole history
+        f.update_weight()
+        f.normalize(Y[:prefix])
+        [f.scalarize(y) for y in Y[:prefix]]
+        f.update_weight()
     f.normalize(Y)
     return [float(f.scalarize(y)) for y in Y]
 
@@ -353,10 +382,11 @@ def check_scalarize(case):
     kind, w, rows, exact = case["kind"], case["w"], case["rows"], case.get("exact", False)
     par = case.get("par")
     m = model()
-    vals = run_scalariser(kind, w, par, rows)
+    vals = run_scalariser(kind, w, par, rows, case.get("prefix", 0))
     parq = F(DEFAULT_PAR[kind] if par is None else par)
     rows_q = Fm(rows)
-    res = base_res(["kind=" + kind, "m=%d" % len(rows[0]), "n=%d" % len(rows), sign_tag(rows_q), "utopia=" + utopia_tag(rows_q)],
+    res = base_res(["kind=" + kind, "m=%d" % len(rows[0]), "n=%d" % len(rows), sign_tag(rows_q), "utopia=" + utopia_tag(rows_q),
+                    "refit" if case.get("prefix") else "single-fit"],
                    nontrivial=len(set(map(tuple, rows))) > 1, scalarisation=kind, scaler="identity", utopia=utopia_tag(rows_q))
     bad = scalar_oracles(res, m, kind, w, rows, vals, dominance=case.get("dominance"))
     if bad:
@@ -418,6 +448,8 @@ def gen_scalarize(count):
         k = count * (4 if tier == "search" else 1)
         # the F07 witness first
         yield dict(kind="Chebyshev", w=[0.5, 0.5], par=None, rows=[[-3.0, -3.0], [-1.0, -1.0]], exact=True)
+        # a later observation beats the utopia point of the first fit
+        yield dict(kind="Chebyshev", w=[0.5, 0.5], par=None, rows=[[-1.0, -1.0], [-2.0, -2.0], [-3.0, -3.0]], exact=True, prefix=1)
         for i in range(k):
             kind = kinds[i % 5]
             m = rng.choice([1, 2, 2, 3, 3, 4])
@@ -431,7 +463,12 @@ def gen_scalarize(count):
                 exact = True
             elif kind in ("Linear", "Chebyshev"):
                 exact = True
-            yield dict(kind=kind, w=gen_weights(rng, m), par=par, rows=gen_rows(rng, n, m, sign), exact=exact)
+            rows = gen_rows(rng, n, m, sign)
+            case = dict(kind=kind, w=gen_weights(rng, m), par=par, rows=rows, exact=exact)
+            if n > 1 and i % 2:
+                rows = improve_later(rng, rows)
+                case.update(rows=rows, prefix=rng.randint(1, n - 1))
+            yield case
     return gen
 
 
@@ -483,14 +520,15 @@ def check_fit_targets(case):
     opt, Spy = make_optimizer(len(ys), pol, scaler, kind, w)
     X = [[i] for i in range(len(ys))]
     told = ["F" if y is None else (y[0] if n_obj == 1 else list(y)) for y in ys]
-    opt.tell(X, told)
+    for a, b in segments(len(ys), case.get("cuts")):   # the history arrives in 1-4 tells; every tell refits the surrogate
+        opt.tell(X[a:b], told[a:b])
     fitted = Spy.fits[-1]
     good_idx = [i for i, y in enumerate(ys) if y is not None]
     good_rows = Fm([ys[i] for i in good_idx])
     sk = SCKIND["identity" if scaler == "auto" else scaler]   # the spy is not a forest: auto = identity
     utag = "zero" if sk != 0 else utopia_tag(good_rows)
     res = base_res(["n_obj=%d" % n_obj, "scaler=" + scaler, "kind=" + kind, "pol=" + pol, "fails=%d" % (len(ys) - len(good_idx)),
-                    sign_tag(good_rows)], nontrivial=len(set(map(tuple, good_rows))) > 1,
+                    sign_tag(good_rows), "tells=%d" % len(segments(len(ys), case.get("cuts")))], nontrivial=len(set(map(tuple, good_rows))) > 1,
                    scalarisation=kind if n_obj > 1 else "none", scaler=scaler, utopia=utag if n_obj > 1 else "n/a")
     if len(fitted) != len(ys):
         return fail(res, "corr", "fit_length", dict(fitted=fitted))
@@ -535,6 +573,8 @@ def gen_fit_targets(count):
         kinds, scalers = list(SKIND), ["identity", "minmax", "quantile-uniform", "auto"]
         k = count * (3 if tier == "search" else 1)
         yield dict(ys=[[-103.0, -103.0], [-101.0, -101.0]], n_obj=2, pol="max", scaler="identity", kind="Chebyshev", w=[0.5, 0.5])
+        yield dict(ys=[[-10.0, -5.0], [-11.0, -7.0], [-12.0, -9.0], [-13.0, -11.0]], n_obj=2, pol="max", scaler="identity", kind="Chebyshev",
+                   w=[0.5, 0.5], cuts=[2])
         for i in range(k):
             n_obj = [1, 2, 3][i % 3]
             n = rng.randint(2, 5) if tier == "search" else rng.choice([2, 3, 5, 9])
@@ -543,13 +583,20 @@ def gen_fit_targets(count):
                 for j in rng.sample(range(n), rng.randint(1, max(1, n // 3))):
                     if sum(r is not None for r in rows) > 1:
                         rows[j] = None
+            rows = improve_later(rng, rows)
+            if rows[0] is None:   # the first tell must contain an observation (an all-failure first fit is C06's subject)
+                j = next(j for j, r in enumerate(rows) if r is not None)
+                rows[0], rows[j] = rows[j], rows[0]
             yield dict(ys=rows, n_obj=n_obj, pol=["max", "mean"][(i // 7) % 2], scaler=scalers[(i // 2) % 4], kind=kinds[i % 5],
-                       w=gen_weights(rng, n_obj, positive=True if i % 4 else None))
+                       w=gen_weights(rng, n_obj, positive=True if i % 4 else None), cuts=gen_cuts(rng, n))
     return gen
 
 
 def shrink_ys(case):
     ys = case["ys"]
+    cuts = case.get("cuts") or []
+    for i in range(len(cuts)):
+        yield dict(case, cuts=cuts[:i] + cuts[i + 1:])
     for i in range(len(ys)):
         if len(ys) > 2:
             yield dict(case, ys=ys[:i] + ys[i + 1:])
@@ -897,7 +944,8 @@ def check_e2e(case):
     utag = "n/a" if n_obj == 1 else ("zero" if eff_scaler != "identity" else utopia_tag(told_rows))
     best_first = all(all(a >= b for a, b in zip(objs_q[0], r)) for r in objs_q)
     res = base_res(["n_obj=%d" % n_obj, "kind=" + (kind if n_obj > 1 else "-"), "scaler=" + scaler, "surrogate=" + surrogate, "acq=" + case["acq"],
-                    "path=" + case["path"], "weights=" + ("random" if w is None else "fixed"), sign_tag(told_rows), "kappa=%g" % kappa],
+                    "path=" + case["path"], "weights=" + ("random" if w is None else "fixed"), sign_tag(told_rows), "kappa=%g" % kappa,
+                    "tells=%d" % len(segments(len(objs), case.get("cuts")))],
                    nontrivial=len(set(map(tuple, objs))) > 1 and not best_first,
                    scalarisation=kind if n_obj > 1 else "none", scaler=eff_scaler, utopia=utag, surrogate=surrogate, n_obj=n_obj)
     if surrogate == "SPY":
@@ -910,17 +958,20 @@ def check_e2e(case):
                      surrogate_kwargs=kw, n_z=nz)
         if surrogate == "SPY":
             Spy.stds = case.get("stds")
-        if case["path"] == "tell":
-            s.tell([(c, (o[0] if n_obj == 1 else tuple(o))) for c, o in zip(cfgs, objs)])
-        else:
-            csv = os.path.join(d, "prev.csv")
-            cols = ["objective"] if n_obj == 1 else ["objective_%d" % j for j in range(n_obj)]
-            names = ["p:x", "p:z"] if nz > 1 else ["p:x"]
-            with open(csv, "w") as f:
-                f.write(",".join(names + cols + ["job_id"]) + "\n")
-                for i, (c, o) in enumerate(zip(cfgs, objs)):
-                    f.write(",".join([str(c[k[2:]]) for k in names] + [repr(float(v)) for v in o] + [str(i)]) + "\n")
-            s.fit_surrogate(csv)
+        segs = segments(len(cfgs), case.get("cuts"))
+        for bi, (a, b) in enumerate(segs):
+            # "tell": every batch through CBO.tell; "fit_surrogate": the first batch is a checkpoint given to fit_surrogate, the rest is told
+            if case["path"] == "tell" or bi > 0:
+                s.tell([(c, (o[0] if n_obj == 1 else tuple(o))) for c, o in zip(cfgs[a:b], objs[a:b])])
+            else:
+                csv = os.path.join(d, "prev.csv")
+                cols = ["objective"] if n_obj == 1 else ["objective_%d" % j for j in range(n_obj)]
+                names = ["p:x", "p:z"] if nz > 1 else ["p:x"]
+                with open(csv, "w") as f:
+                    f.write(",".join(names + cols + ["job_id"]) + "\n")
+                    for i, (c, o) in enumerate(zip(cfgs[a:b], objs[a:b])):
+                        f.write(",".join([str(c[k[2:]]) for k in names] + [repr(float(v)) for v in o] + [str(i)]) + "\n")
+                s.fit_surrogate(csv)
         nxt = s.ask(1)[0]
     key = {k: int(v) for k, v in nxt.items()}
     if key not in cfgs:
@@ -973,6 +1024,11 @@ def gen_e2e(count):
         # F07 end to end: all-positive objectives, identity scaler, Chebyshev
         yield dict(n_obj=2, kind="Chebyshev", scaler="identity", w=[0.5, 0.5], surrogate="ET", acq="UCB", path="tell", nx=4, nz=1,
                    objs=[[100.0, 100.0], [101.0, 103.0], [107.0, 106.0], [104.0, 105.0]], seed=3)
+        # the utopia point must follow the history: objectives increasing with x, told in two batches (then the best is x = 9)
+        for kind0 in ("Chebyshev", "AugChebyshev", "Quadratic", "PBI"):
+            for path0 in ("tell", "fit_surrogate"):
+                yield dict(n_obj=2, kind=kind0, scaler="identity", w=[0.5, 0.5], surrogate="ET", acq="UCB", path=path0, nx=10, nz=1,
+                           objs=[[10.0 + x, 5.0 + 2.0 * x] for x in range(10)], seed=1, cuts=[5])
         k = count * (2 if tier == "search" else 1)
         for i in range(k):
             n_obj = [1, 2, 3][i % 3]
@@ -984,10 +1040,12 @@ def gen_e2e(count):
             if ideal_needed and n_obj > 1:
                 best = [max(r[j] for r in objs) for j in range(n_obj)]
                 objs[rng.randrange(len(objs))] = best
+            if rng.random() < 0.5:   # later configurations tend to be better: later batches beat the best of the earlier fits
+                objs = sorted(objs, key=sum)
             sur = ["ET", "RF", "ET", "SPY"][(i // 2) % 4]
             case = dict(n_obj=n_obj, kind=kind, scaler=scalers[(i // 5) % 4], w=None if i % 4 == 3 else gen_weights(rng, n_obj, positive=True),
                         surrogate=sur, acq=["UCB", "UCBd"][(i // 7) % 2], path=["tell", "fit_surrogate"][(i // 11) % 2], nx=nx, nz=nz, objs=objs,
-                        seed=rng.randint(0, 10 ** 6))
+                        seed=rng.randint(0, 10 ** 6), cuts=gen_cuts(rng, nx * nz))
             if sur == "SPY" and n_obj == 1 and (i // 8) % 2 == 0:
                 case["kappa"] = rng.choice([0.5, 1.0, 2.0])
                 case["stds"] = [dy(rng, 0, 4) for _ in range(nx * nz)]
@@ -999,6 +1057,9 @@ def gen_e2e(count):
 
 def shrink_e2e(case):
     objs, nx, nz = case["objs"], case["nx"], case["nz"]
+    cuts = case.get("cuts") or []
+    for i in range(len(cuts)):
+        yield dict(case, cuts=cuts[:i] + cuts[i + 1:])
     if nz > 1:
         yield dict(case, nz=1, objs=objs[::nz], stds=(case.get("stds") or [])[::nz] or None)
     if nx > 2:
